@@ -48,6 +48,7 @@ class Program:
         self.fn_index = {}      # (type_last|None, trait_last|None, method) -> [full names]
         self.closure_index = {}  # closure/coroutine type text -> fn name
         self._compiled = {}
+        self._arity = {}
         self._resolve_cache = {}
         self._build_index()
 
@@ -134,6 +135,57 @@ def _norm_closure(t):
     t = re.sub(r' \(#\d+\)\}$', '}', t)
     t = t.replace('{coroutine@', '{async block@').replace('{async closure@', '{async block@')
     return t
+
+
+def _closure_arity(self, cname):
+    """Number of captured fields the closure body reads (None if unknown)."""
+    key = _norm_closure(cname)
+    if key in self._arity:
+        return self._arity[key]
+    name = self.closure_index.get(key)
+    n = None
+    if name is not None:
+        f = self.module.fns.get(name)
+        if f is not None:
+            idx = [int(x) for x in re.findall(r'\(\*_1\)\.(\d+): ', f.header + f.body_text)] + \
+                  [int(x) for x in re.findall(r'\(_1\.(\d+): ', f.header + f.body_text)]
+            n = max(idx) + 1 if idx else 0
+    self._arity[key] = n
+    return n
+
+
+def _recover_captures(self, fn, cname, ops, need):
+    """rustc's MIR printer lists one operand per captured *variable*; with disjoint field captures (`self.a`, `self.b`)
+    the later operands are dropped from the text.  They are the otherwise unused temporaries assigned just before the
+    aggregate; recover them in order, or give up (Unsupported -> inconclusive)."""
+    fn.parse()
+    printed = [o[1].local for o in ops if o[0] in ('move', 'copy') and not o[1].proj]
+    if len(printed) != len(ops):
+        raise Unsupported('closure %s: %d of %d captures printed, cannot recover' % (cname, len(ops), need))
+    for bb, (stmts, term) in fn.blocks.items():
+        for i, line in enumerate(stmts):
+            if ('= ' + cname) in line:
+                order = []
+                for j in range(i - 1, max(-1, i - 60), -1):
+                    m = re.match(r'_(\d+) = ', stmts[j])
+                    if not m:
+                        break
+                    n = int(m.group(1))
+                    uses = len(re.findall(r'\b_%d\b' % n, fn.body_text))
+                    if n in printed:
+                        order.append(n)
+                        if all(x in order for x in printed):
+                            break
+                    elif uses == 2:       # its declaration and its assignment: feeds nothing that is printed
+                        order.append(n)
+                order.reverse()
+                if len(order) == need:
+                    return [P.parse_operand('move _%d' % n) for n in order]
+                raise Unsupported('closure %s: cannot recover %d captures (found %r)' % (cname, need, order))
+    raise Unsupported('closure %s: construction site not found' % cname)
+
+
+Program_closure_patch = True
 
 
 class Explorer:
@@ -707,8 +759,13 @@ class Executor:
             return VecV([copy_value(v) for _ in range(int(m.group(1)))], 'array')
         if k == 'closure':
             ty = self.place_ty(fr, dest) if dest is not None else None
+            ops = rv[2]
+            if not ('coroutine@' in rv[1] or 'async' in rv[1]):
+                need = self.prog.closure_arity(rv[1])
+                if need is not None and len(ops) < need:
+                    ops = self.prog.recover_captures(fr.fn, rv[1], ops, need)
             a = Agg(rv[1], 0 if 'coroutine@' in rv[1] or 'async' in rv[1] else None,
-                    [self.operand(fr, o) for o in rv[2]])
+                    [self.operand(fr, o) for o in ops])
             a.extra = {'decl_ty': ty, 'parent': fr.name}
             if a.variant == 0:
                 a.extra['vfields'] = {}
@@ -1308,3 +1365,7 @@ def parallel_explore(prog, make, depth=6, procs=16, deadline=None, **kw):
                 if inconclusive and any('budget' in i_ for i_ in inconclusive):
                     break
     return res, stats, functions, models_used, inconclusive
+
+
+Program.closure_arity = _closure_arity
+Program.recover_captures = _recover_captures
